@@ -188,7 +188,7 @@ def rule_field_constants(ctx, cfg, prog):
     m.ob('R-CONST', neg1 == (bls.Q - pow(2, 384, bls.Q)) % bls.Q, 'negone|q', 'Fq::negative_one != q - R', loc_str(m.g(NS + 'Fq::negative_one')))
     # Fq::square_root exponent
     f = m.fn(NS + 'Fq::square_root')
-    gl = m.call_arg_globals(f, 'exponentiate', 2)
+    gl = m.call_arg_globals(f, 'exponentiate', 2) + m.call_arg_globals(f, 'exponentiate_restrict', 2)
     ctx.require(len(gl) == 1, 'Fq::square_root: expected one exponentiate call with a constant exponent')
     e = m.ival(gl[0][0])
     m.ob('R-CONST', e == (bls.Q + 1) // 4, 'sqrtexp|q', 'Fq::square_root exponent %s != (q+1)/4' % gl[0][0], loc_str(gl[0][1]))
